@@ -47,6 +47,13 @@ NOTES = {
  'C18-c1': "first NOT detected (reference member modelled as embedded object); detected after the IndexClassification constructor was put under contract: the member IS the caller's site map",
  'C03-c1': 'first UNDECIDED (isDiagonal/diagonal/setIdentity had no model); detected after the dense vocabulary was added (eigenvalues of a computed block are ascending)',
  'C09-c2': 'C09 check passes (truncation is the subject of C19); detected by the C19 check',
+ 'C01-d1': "wave 4; first UNDECIDED (the function became recursive; the long overload was printed under the complex overload's name); detected after the typed overload rename and the enforce-contract-rec retry. Only the complex build changes its values",
+ 'C07-d1': 'wave 4; first NOT detected (reference member modelled as embedded object); detected by the generated link-member assertion h_links_symm',
+ 'C09-d2': 'wave 4; first UNDECIDED (HamiltonianPart::getMatrixElement(m,n) had no model in specs/averages.c); detected after the model was added',
+ 'C03-d1': 'wave 4; UNDECIDED: a function-local static object is not printable as C (extraction break of getEigenValues)',
+ 'C03-d2': 'wave 4; UNDECIDED: first missing vocabulary (map::size), then the solver ran out of memory on h_HP_prepare for the changed body',
+ 'C10-d2': 'wave 4; first UNDECIDED (BlockNumber::operator== was not extracted in specs/fieldop.c)',
+ 'C10-d1': 'wave 4; a rank-dependent change (rank != 0 computes nothing): caught by the per-rank contract of FieldOperator::compute, which holds for every rank',
 }
 for d in sorted(glob.glob(os.path.join(V, 'seeded', 'C*-*'))):
     sid = os.path.basename(d)
